@@ -27,7 +27,9 @@ def gen_program(rng, well_behaved=True, allow_fail=True, allow_file=True):
             content = ""
         off = rng.randrange(0, len(content) + 1) if content and rng.randrange(3) == 0 else 0
         p["file"] = {"content": content, "offset": off, "fileno": rng.randrange(4) != 0,
-                     "blksize": rng.choice([1, 7, 8192]), "has_close": rng.randrange(5) != 0}
+                     "blksize": rng.choice([1, 7, 8192]), "has_close": rng.randrange(5) != 0,
+                     # a buffered file object the application has looked into (content sniffing) before rewinding to `offset`
+                     "sniff": rng.choice([0, 0, 1, 4, 512])}
         total = len(content) - off
         p["chunks"] = []
     cl = rng.randrange(4)
